@@ -148,9 +148,10 @@ Definition shape_i (i : instr) : instr :=
 Definition shape (p : list instr) : list instr := map shape_i p.
 
 (* ---------------------------------------------------------------- sites *)
-(* Effect programs of the in-place-writing sites, as extracted from /repo HEAD by
-   harness/props/c20.py (extract_site).  The harness re-extracts them from the current source on every run
-   and Corr/C20.v compares. *)
+(* HISTORY ONLY.  Effect programs of the in-place-writing sites as harness/props/c20.py (extract_site) extracted
+   them from an earlier /repo commit.  They are NOT compared with the current source any more: the programs of the
+   current source are regenerated on every run into Gen/C20.v (translate/gen_c20.py), proved safe in
+   Bridge/C20.v and compared with the harness's own extraction in Corr/C20.v. *)
 (*SITES-BEGIN*)
 (* site 1: str_to_int — bionumpy.io.strops:str_to_int *)
 Definition site_1 : list instr :=
@@ -275,12 +276,10 @@ Definition model_prog_fixed (sid : Z) (txt : block) : list instr :=
 (* what Corr/C20.v uses *)
 Definition model_prog_sel (sid : Z) (txt : block) : list instr :=
   if fix1_applied then model_prog_fixed sid txt else model_prog sid txt.
-Definition lookup_site_sel (sid : Z) : option (nat * list instr) :=
-  if fix1_applied && Z.eqb sid 14%Z then Some (1, site_14_fixed)
-  else if fix1_applied && Z.eqb sid 13%Z then Some (1, site_13_fixed)
-  else lookup_site sid.
+(* the registered sites (harness/props/c20.py:SITES); the generated table must list exactly these *)
+Definition site_ids : list Z := [1; 2; 3; 4; 5; 6; 7; 8; 9; 10; 11; 12; 13; 14; 15; 16; 17; 18; 19; 20; 21]%Z.
 
-(* decidable equality of programs (the extracted program against the pinned one) *)
+(* decidable equality of programs (the harness's extraction against the generated one) *)
 Definition nat_list_eqb := list_eqb Nat.eqb.
 Definition instr_eqb (i j : instr) : bool :=
   match i, j with
